@@ -1516,6 +1516,12 @@ func (c *Client) Clone() *Client {
 	cc.udBeforeRequest = cloneSlice(c.udBeforeRequest)
 	cc.afterResponse = cloneSlice(c.afterResponse)
 	cc.dumpOptions = c.dumpOptions.Clone()
+	if cc.Dump != nil && cc.dumpOptions != nil {
+		// keep the clone's dump setters wired to its own Dumper, as they are on the original
+		if o, ok := c.Dump.Options.(dumpOptions); ok && o.DumpOptions == c.dumpOptions {
+			cc.Dump.SetOptions(dumpOptions{cc.dumpOptions})
+		}
+	}
 	cc.retryOption = c.retryOption.Clone()
 	return &cc
 }
